@@ -162,10 +162,11 @@ def judge(cond, role, rec, msg, call_args, a_repr, strict_none=True):
                 continue
             if inf["text"] not in shown:
                 where = "plain"
-                if inf.get("in_first_iter"):
-                    where = "first_iterable_of_comprehension"
-                elif inf.get("in_fstring"):
+                # inside an f-string nothing is listed (KF-C06-2), whatever else the node is
+                if inf.get("in_fstring"):
                     where = "inside_fstring"
+                elif inf.get("in_first_iter"):
+                    where = "first_iterable_of_comprehension"
                 bad.append(("evaluated_subexpression_not_listed", "{} {!r} = {!r} [{}]".format(inf["type"], inf["text"], v, where), where))
     return bad
 
